@@ -14,9 +14,37 @@ type modSet struct {
 	heaps map[string]string // heap name -> sort
 	all   bool
 	alloc bool
+	// via[h] lists the local variables through which heap h is written; whole[h] is set when some write to h
+	// goes through anything else. A heap written only through loop-invariant locals keeps all other objects.
+	via   map[string][]types.Object
+	whole map[string]bool
 }
 
-func newModSet() *modSet { return &modSet{vars: map[types.Object]bool{}, heaps: map[string]string{}} }
+func (ms *modSet) touch(hn, hs string) {
+	ms.heaps[hn] = hs
+	ms.whole[hn] = true
+}
+
+// allocTouch: the heap receives stores only at freshly allocated references.
+func (ms *modSet) allocTouch(hn, hs string) {
+	ms.heaps[hn] = hs
+}
+
+func newModSet() *modSet {
+	return &modSet{vars: map[types.Object]bool{}, heaps: map[string]string{}, via: map[string][]types.Object{}, whole: map[string]bool{}}
+}
+
+// noteWrite records a write to heap hn whose target object is denoted by base.
+func (fr *Frame) noteWrite(ms *modSet, hn, hs string, base ast.Expr, info *types.Info) {
+	ms.heaps[hn] = hs
+	if id, ok := ast.Unparen(base).(*ast.Ident); ok {
+		if o, ok := info.ObjectOf(id).(*types.Var); ok && o != nil && !fr.isBoxed(o) && !(o.Pkg() != nil && o.Parent() == o.Pkg().Scope()) {
+			ms.via[hn] = append(ms.via[hn], o)
+			return
+		}
+	}
+	ms.whole[hn] = true
+}
 
 func (fr *Frame) modOf(nodes ...ast.Node) *modSet {
 	ms := newModSet()
@@ -34,10 +62,10 @@ func (fr *Frame) modLhs(e ast.Expr, ms *modSet, info *types.Info) {
 		if o, ok := info.ObjectOf(x).(*types.Var); ok && o != nil {
 			if o.Pkg() != nil && o.Parent() == o.Pkg().Scope() {
 				hn, hs := fr.eng.globalHeap(o)
-				ms.heaps[hn] = hs
+				ms.touch(hn, hs)
 			} else if fr.isBoxed(o) {
 				hn, hs := fr.eng.ptrHeap(o.Type())
-				ms.heaps[hn] = hs
+				ms.touch(hn, hs)
 				ms.vars[o] = true
 			} else {
 				ms.vars[o] = true
@@ -47,7 +75,7 @@ func (fr *Frame) modLhs(e ast.Expr, ms *modSet, info *types.Info) {
 		if t := info.TypeOf(x.X); t != nil {
 			if pt, ok := t.Underlying().(*types.Pointer); ok {
 				hn, hs := fr.eng.ptrHeap(pt.Elem())
-				ms.heaps[hn] = hs
+				ms.touch(hn, hs)
 			}
 		}
 	case *ast.SelectorExpr:
@@ -79,14 +107,14 @@ func (fr *Frame) modLhs(e ast.Expr, ms *modSet, info *types.Info) {
 			}
 			if lastPtr != nil {
 				hn, hs := fr.eng.ptrHeap(lastPtr)
-				ms.heaps[hn] = hs
+				ms.touch(hn, hs)
 			}
 			if _, isPtr := t.Underlying().(*types.Pointer); !isPtr {
 				fr.modLhs(x.X, ms, info)
 			}
 		} else if o, ok := info.Uses[x.Sel].(*types.Var); ok {
 			hn, hs := fr.eng.globalHeap(o)
-			ms.heaps[hn] = hs
+			ms.touch(hn, hs)
 		}
 	case *ast.IndexExpr:
 		t := info.TypeOf(x.X)
@@ -97,20 +125,20 @@ func (fr *Frame) modLhs(e ast.Expr, ms *modSet, info *types.Info) {
 		switch u := t.Underlying().(type) {
 		case *types.Map:
 			vn, vs, dn, ds := fr.eng.mapHeaps(u)
-			ms.heaps[vn] = vs
-			ms.heaps[dn] = ds
+			fr.noteWrite(ms, vn, vs, x.X, info)
+			fr.noteWrite(ms, dn, ds, x.X, info)
 		case *types.Slice:
 			if isByte(u.Elem()) {
 				fr.modLhs(x.X, ms, info)
 			} else {
 				hn, hs := fr.eng.elemHeap(u.Elem())
-				ms.heaps[hn] = hs
+				fr.noteWrite(ms, hn, hs, x.X, info)
 			}
 		case *types.Array:
 			fr.modLhs(x.X, ms, info)
 		case *types.Pointer:
 			hn, hs := fr.eng.ptrHeap(u.Elem())
-			ms.heaps[hn] = hs
+			ms.touch(hn, hs)
 		}
 	}
 }
@@ -143,7 +171,7 @@ func (fr *Frame) modWalk(n ast.Node, ms *modSet, info *types.Info, visiting map[
 								ms.vars[o] = true
 								if fr.isBoxed(o) {
 									hn, hs := fr.eng.ptrHeap(o.Type())
-									ms.heaps[hn] = hs
+									ms.allocTouch(hn, hs)
 									ms.alloc = true
 								}
 							}
@@ -158,7 +186,7 @@ func (fr *Frame) modWalk(n ast.Node, ms *modSet, info *types.Info, visiting map[
 				ms.alloc = true
 				if t := info.TypeOf(x.X); t != nil {
 					hn, hs := fr.eng.ptrHeap(t)
-					ms.heaps[hn] = hs
+					ms.allocTouch(hn, hs)
 				}
 			}
 		case *ast.CompositeLit:
@@ -168,12 +196,12 @@ func (fr *Frame) modWalk(n ast.Node, ms *modSet, info *types.Info, visiting map[
 				case *types.Slice:
 					if !isByte(u.Elem()) {
 						hn, hs := fr.eng.elemHeap(u.Elem())
-						ms.heaps[hn] = hs
+						ms.allocTouch(hn, hs)
 					}
 				case *types.Map:
 					vn, vs, dn, ds := fr.eng.mapHeaps(u)
-					ms.heaps[vn] = vs
-					ms.heaps[dn] = ds
+					ms.allocTouch(vn, vs)
+					ms.allocTouch(dn, ds)
 				}
 			}
 		case *ast.CallExpr:
@@ -196,7 +224,7 @@ func (fr *Frame) modCall(call *ast.CallExpr, ms *modSet, info *types.Info, visit
 				if t := info.TypeOf(call); t != nil {
 					if st, ok := t.Underlying().(*types.Slice); ok && !isByte(st.Elem()) {
 						hn, hs := fr.eng.elemHeap(st.Elem())
-						ms.heaps[hn] = hs
+						ms.allocTouch(hn, hs)
 					}
 				}
 			case "copy":
@@ -210,7 +238,7 @@ func (fr *Frame) modCall(call *ast.CallExpr, ms *modSet, info *types.Info, visit
 							fr.modLhs(a, ms, info)
 						} else {
 							hn, hs := fr.eng.elemHeap(st.Elem())
-							ms.heaps[hn] = hs
+							ms.touch(hn, hs)
 						}
 					}
 				}
@@ -218,7 +246,7 @@ func (fr *Frame) modCall(call *ast.CallExpr, ms *modSet, info *types.Info, visit
 				if t := info.TypeOf(call.Args[0]); t != nil {
 					if mt, ok := t.Underlying().(*types.Map); ok {
 						_, _, dn, ds := fr.eng.mapHeaps(mt)
-						ms.heaps[dn] = ds
+						fr.noteWrite(ms, dn, ds, call.Args[0], info)
 					}
 				}
 			case "make", "new":
@@ -228,14 +256,14 @@ func (fr *Frame) modCall(call *ast.CallExpr, ms *modSet, info *types.Info, visit
 					case *types.Slice:
 						if !isByte(u.Elem()) {
 							hn, hs := fr.eng.elemHeap(u.Elem())
-							ms.heaps[hn] = hs
+							ms.allocTouch(hn, hs)
 						}
 					case *types.Map:
 						_, _, dn, ds := fr.eng.mapHeaps(u)
-						ms.heaps[dn] = ds
+						ms.allocTouch(dn, ds)
 					case *types.Pointer:
 						hn, hs := fr.eng.ptrHeap(u.Elem())
-						ms.heaps[hn] = hs
+						ms.allocTouch(hn, hs)
 					}
 				}
 			case "clear":
@@ -298,7 +326,7 @@ func (fr *Frame) modCall(call *ast.CallExpr, ms *modSet, info *types.Info, visit
 		ms.alloc = true
 		// big.Int methods mutate their receiver
 		if callee.Pkg() != nil && callee.Pkg().Path() == "math/big" {
-			ms.heaps["H:big"] = "(Array Int Int)"
+			ms.touch("H:big", "(Array Int Int)")
 		}
 		return
 	}
@@ -317,7 +345,7 @@ func (fr *Frame) modCall(call *ast.CallExpr, ms *modSet, info *types.Info, visit
 		return
 	}
 	for k, v := range inner.heaps {
-		ms.heaps[k] = v
+		ms.touch(k, v)
 	}
 	if inner.alloc {
 		ms.alloc = true
@@ -332,7 +360,7 @@ func (fr *Frame) frameHeaps(c *Contract, f *types.Func, ms *modSet) error {
 			return err
 		}
 		for k, v := range hs {
-			ms.heaps[k] = v
+			ms.touch(k, v)
 		}
 	}
 	return nil
@@ -341,7 +369,7 @@ func (fr *Frame) frameHeaps(c *Contract, f *types.Func, ms *modSet) error {
 // havocMod forgets the locations in ms.
 func (fr *Frame) havocMod(s *State, ms *modSet) {
 	if ms.all {
-		s.havocAll()
+		fr.havocEverything(s)
 	} else {
 		var names []string
 		for k := range ms.heaps {
@@ -349,6 +377,36 @@ func (fr *Frame) havocMod(s *State, ms *modSet) {
 		}
 		sort.Strings(names)
 		for _, k := range names {
+			if !ms.whole[k] {
+				// written only through loop-invariant local variables and fresh allocations: every other
+				// object that exists at the loop head keeps its content
+				ok := true
+				var except []string
+				for _, o := range ms.via[k] {
+					v, have := s.vars[o]
+					if ms.vars[o] || !have {
+						ok = false
+						break
+					}
+					switch v.T.Underlying().(type) {
+					case *types.Slice:
+						except = append(except, "(sl_ref "+v.S+")")
+					default:
+						except = append(except, v.S)
+					}
+				}
+				if ok {
+					pre := s.heap(k, ms.heaps[k])
+					s.havocHeap(k, ms.heaps[k])
+					cur := s.heaps[k]
+					conds := []string{"(< r " + s.next + ")"}
+					for _, x := range except {
+						conds = append(conds, not(eq("r", x)))
+					}
+					s.assume(fmt.Sprintf("(forall ((r Int)) (! (=> %s (= (select %s r) (select %s r))) :pattern ((select %s r))))", and(conds...), cur, pre, cur))
+					continue
+				}
+			}
 			s.havocHeap(k, ms.heaps[k])
 		}
 	}
